@@ -250,6 +250,62 @@ def _bool_switch(body, call_block):
     return None
 
 
+def _bool_switches(body, call_block):
+    """like _bool_switch, for a result that is tested more than once (`if is_new {..} if is_new && .. {..}`): every
+    (false_target, true_target)"""
+    want = body.term(call_block)
+    out = []
+    for blk in range(body.n):
+        tt = body.term(blk)
+        if tt["k"] != "switch" or body.is_cleanup(blk):
+            continue
+        pl = op_place(tt["discr"])
+        if pl is None or pl["p"]:
+            continue
+        call, pos = M.flag_polarity(body, pl["l"])
+        if call is not want:
+            continue
+        f = next((tg for v, tg in tt["targets"] if v == 0), None)
+        tr = tt["otherwise"]
+        if not pos:
+            f, tr = tr, f
+        out.append((f, tr))
+    return out
+
+
+def slot_tests(body, slot, vname):
+    """tests of the visitor's error slot in `body`: [(clean_target, error_target)] - through is_some/is_none/is_ok/is_err
+    on the field, or through a match on its discriminant (0 = None / Ok(()) = no error so far)"""
+    out = []
+
+    def is_slot(pl):
+        return pl is not None and slot in pl["p"] and vname in body.local_ty(pl["l"])
+    for blk, t in body.calls():
+        if body.is_cleanup(blk) or not fn_matches(t, r"option::Option::<T>::(is_some|is_none)$", r"result::Result::<T, E>::(is_ok|is_err)$") or not t["args"]:
+            continue
+        l = op_local(t["args"][0])
+        refs = [d for b2, i, d in (M.def_sites(body, l) if l is not None else []) if i != "term" and d["rv"]["k"] == "ref" and is_slot(d["rv"]["pl"])]
+        if not refs:
+            continue
+        for f_t, t_t in _bool_switches(body, blk):
+            says_error = fn_matches(t, r"is_some$", r"is_err$")
+            out.append((f_t, t_t) if says_error else (t_t, f_t))
+    for blk in range(body.n):
+        tt = body.term(blk)
+        if tt["k"] != "switch" or body.is_cleanup(blk) or op_local(tt["discr"]) is None:
+            continue
+        for b2, i, d in M.def_sites(body, op_local(tt["discr"])):
+            if i != "term" and d["rv"]["k"] == "discr" and is_slot(d["rv"]["pl"]) and not [x for x in d["rv"]["pl"]["p"][d["rv"]["pl"]["p"].index(slot) + 1:] if x.startswith(".")]:
+                clean = next((tg for v, tg in tt["targets"] if v == 0), None)
+                err = next((tg for v, tg in tt["targets"] if v == 1), None)
+                if clean is None:
+                    clean = tt["otherwise"]
+                elif err is None:
+                    err = tt["otherwise"]
+                out.append((clean, err))
+    return out
+
+
 # ------------------------------------------------------------------ C05.R3
 
 def idempotence_rule(crate, prop, fn_path="export::export_and_merge", merge_fn="export::merge"):
@@ -624,15 +680,49 @@ def walker_roles(crate):
     v = vis[0] if len(vis) == 1 else None
     slot = None
     if v is not None:
-        for blk, t in v.calls():
-            if fn_matches(t, r"option::Option::<T>::(is_some|is_none)$") and t["args"]:
-                l = op_local(t["args"][0])
-                for b2, i, d in (M.def_sites(v, l) if l is not None else []):
-                    if i != "term" and d["rv"]["k"] == "ref":
-                        fs = [x for x in d["rv"]["pl"]["p"] if x.startswith(".")]
-                        if fs and "ExportError" in (t.get("arg_tys") or [""])[0]:
-                            slot = fs[-1]
+        # the field of the visitor that carries an ExportError (Option<ExportError> or Result<(), ExportError>): read off
+        # the place where a visitor is built
+        vname = _vis_type(v).split("::")[-1]
+        for bx in crate.bodies:
+            for blk in range(bx.n):
+                for st in bx.stmts(blk):
+                    if st["k"] == "assign" and st["rv"]["k"] == "agg" and (st["rv"].get("adt") or "").split("::")[-1] == vname and st["rv"].get("fields"):
+                        for fname, o in zip(st["rv"]["fields"], st["rv"]["ops"]):
+                            ty = bx.local_ty(op_local(o)) if op_local(o) is not None else (op_const(o) or {}).get("ty", "")
+                            if "ExportError" in (ty or ""):
+                                slot = "." + fname
     return er, v, slot
+    return er, v, slot
+
+
+def module_visit_types(crate, prefix="export::recursive_export::"):
+    """the types whose dependencies the recursive exporter's module walks: first type argument of every call of
+    TS::visit_dependencies in the module, with a helper's own type parameter replaced by what its callers (inside the
+    module) instantiate it with.  -> [(body, block, term, resolved type argument)]"""
+    mod = [b for b in crate.bodies if b.path.startswith(prefix)]
+    out = []
+    for b in mod:
+        for blk, t in b.calls():
+            if b.is_cleanup(blk) or not fn_matches(t, r"TS::visit_dependencies$"):
+                continue
+            a0 = (t["fn"].get("args") or [""])[0]
+            gp = b.raw.get("generic_params") or []
+            resolved = [a0]
+            if a0 in gp:
+                k = gp.index(a0)
+                inst = []
+                for c in mod:
+                    for blk2, t2 in c.calls():
+                        if c.is_cleanup(blk2) or not t2.get("fn") or t2["fn"].get("path") is None:
+                            continue
+                        if crate.call_targets(c, t2, ()) and any(x.path == b.path for x in crate.call_targets(c, t2, ())):
+                            args = t2["fn"].get("args") or []
+                            if k < len(args):
+                                inst.append(args[k])
+                resolved = inst or [a0]
+            for a in resolved:
+                out.append((b, blk, t, a))
+    return out
 
 
 def _vis_type(v):
@@ -660,6 +750,13 @@ def walk_rule(crate, prop):
         r.fail(prop, "edge-missing export_all_into -> export_recursive", "export_all_into does not start the recursive walk", eai.file(), eai.line())
     c_into = has_call(er, r"^export::export_into$")
     c_vis = has_call(er, r"TS::visit_dependencies$")
+    elsewhere = [x for x in module_visit_types(crate) if x[0].path.split("::{closure")[0] != er.path]
+    if not c_vis and elsewhere:
+        # the walk is not organised as `exporter -> visit_dependencies(visitor) -> visitor.visit -> exporter` (a work list,
+        # a collecting visitor, ..): the clauses below do not describe it
+        r.inst(exporter=er.path, visit_dependencies_called_from=sorted({x[0].path for x in elsewhere}), verdict="undecided: the walk has another shape")
+        r.fail(prop, "anchor-missing recursive walk shape", "%s does not call visit_dependencies itself; %s does - the recursion is organised in a way this rule does not read" % (er.path, sorted({x[0].path for x in elsewhere})), er.file(), er.line())
+        return r
     r.inst(edge="export_recursive -> export_into", present=bool(c_into))
     r.inst(edge="export_recursive -> <T as TS>::visit_dependencies", present=bool(c_vis))
     if not c_into:
@@ -681,20 +778,23 @@ def walk_rule(crate, prop):
     if not ins:
         r.fail(prop, "seen-guard-missing export_recursive", "no seen.insert(TypeId::of::<T>()) guard: cyclic type graphs would recurse forever", er.file(), er.line())
         return r
-    sw = _bool_switch(er, ins[0][0])
-    if not sw:
+    sws = _bool_switches(er, ins[0][0])
+    if not sws:
         r.fail(prop, "seen-guard-unrecognised export_recursive", "result of seen.insert() is not branched on", *_loc(er, ins[0][0]))
         return r
-    already_t, fresh_t = sw
+    already_ts = {f_t for f_t, _ in sws if f_t is not None}
+    vname = vty.split("::")[-1]
+    own_visitor = er.raw["arg_count"] >= 1 and vname in er.local_ty(1)
     for b, t in c_into + c_vis:
-        ok = er.dominates(fresh_t, b)
+        ok = any(fresh_t is not None and er.dominates(fresh_t, b) for _, fresh_t in sws)
         r.inst(fn=er.path, callee=_short(t), dominated_by_fresh_insert=ok)
         if not ok:
             r.fail(prop, "walk-not-guarded export_recursive -> %s" % _short(t), "call is reachable without passing the `seen.insert(..) == true` edge", *_loc(er, b))
     # every path entry -> return passes: already-seen edge, a `?` break edge, or the visit call
     slot_writes = {bb for bb in range(er.n) if not er.is_cleanup(bb) for st in er.stmts(bb)
                    if st["k"] == "assign" and slot in st["dst"]["p"] and vty.split("::")[-1] in er.local_ty(st["dst"]["l"])}
-    through = {already_t} | {e["brk"] for e in try_edges(er) if e["brk"] is not None} | {b for b, _ in c_vis} | M.error_blocks(er) | slot_writes
+    slot_err_edges = {e_t for _, e_t in slot_tests(er, slot, vname) if e_t is not None}
+    through = already_ts | {e["brk"] for e in try_edges(er) if e["brk"] is not None} | {b for b, _ in c_vis} | M.error_blocks(er) | slot_writes | slot_err_edges
     ok = er.all_paths_pass(0, through, er.returns())
     r.inst(fn=er.path, check="all non-error returns pass visit_dependencies", ok=ok)
     if not ok:
@@ -711,7 +811,7 @@ def walk_rule(crate, prop):
                     if pl and slot in pl["p"] and vty.split("::")[-1] in er.local_ty(pl["l"]):
                         readers.add(bb)
         ok = bool(readers) and er.all_paths_pass(start, readers, er.returns())
-        if not ok and not readers:
+        if not ok and (not readers or own_visitor):
             # the exporter is its own visitor (`visit_dependencies(self)`): the slot outlives the call and is looked at by
             # whoever created the exporter - every path of export_all_into from the walk to a return must read it
             rd2 = set()
@@ -734,7 +834,8 @@ def walk_rule(crate, prop):
         r.fail(prop, "edge-missing Visit::visit -> export_recursive", "the visitor does not recurse: only direct dependencies would be exported", vis.file(), vis.line())
     if direct:
         r.fail(prop, "visitor-exports-directly Visit::visit", "visitor calls export_into/export_to directly (transitive dependencies lost)", *_loc(vis, direct[0][0]))
-    is_some = [(b, t) for b, t in vis.calls() if fn_matches(t, r"option::Option::<T>::is_some$") and _arg_mentions_field(vis, t, slot)]
+    is_some = []
+    vtests = slot_tests(vis, slot, vname)
     is_none = [(b, t) for b, t in vis.calls() if fn_matches(t, r"option::Option::<T>::is_none$") and
                any(o["kind"] == "call" and fn_matches(o["t"], r"TS::output_path$") for o in origins(vis, op_local(t["args"][0])))]
     has_path = [(b, t) for b, t in vis.calls() if fn_matches(t, r"option::Option::<T>::is_some$") and
@@ -747,7 +848,15 @@ def walk_rule(crate, prop):
             r.inst(fn=vis.path, guard="output_path().is_some()", dominates_recursion=ok)
             if not ok:
                 r.fail(prop, "visitor-guard-bypassed output_path().is_some()", "recursive export reachable for a type without an output path", *_loc(vis, b))
-    for nm, lst, want_false in (("error.is_some()", is_some, True), ("output_path().is_none()", is_none, True)):
+    # the error state: the recursion sits behind the `no error so far` outcome of a test of the slot
+    if not vtests:
+        r.fail(prop, "visitor-guard-missing error.is_some()", "Visit::visit does not test the error slot (%s) before recursing" % slot, vis.file(), vis.line())
+    for b, t in (rec if vtests else []):
+        ok = any(c_t is not None and vis.dominates(c_t, b) for c_t, _ in vtests)
+        r.inst(fn=vis.path, guard="error slot %s says `no error`" % slot, dominates_recursion=ok)
+        if not ok:
+            r.fail(prop, "visitor-guard-bypassed error.is_some()", "recursive export reachable although an earlier export failed", *_loc(vis, b))
+    for nm, lst, want_false in (("output_path().is_none()", is_none, True),):
         if nm.startswith("output_path") and not lst and has_path:
             continue
         if not lst:
@@ -1234,6 +1343,8 @@ def visitor_predicates_rule(crate, prop, rule="C11.R12"):
             for blk, t in body.calls():
                 if body.is_cleanup(blk) or not t.get("fn"):
                     continue
+                if fn_matches(t, r"Result::<T, E>::(is_ok|is_err)$") and "ExportError" in (t.get("arg_tys") or [""])[0]:
+                    continue              # the error state kept as a Result: the same question as `error.is_some()`
                 if not fn_matches(t, *ALLOWED):
                     extra.append((t["fn"]["path"], M.user_span(t["span"])))
         r.inst(visitor=b.path, other_calls=sorted({p for p, _ in extra}))
